@@ -433,13 +433,6 @@ func (w *world) windowReorgOK(deep bool) bool {
 			}
 		}
 	}
-	if ok {
-		for _, c := range w.cons {
-			if !c.v1 && len(c.seeds) > 0 && tipH+1 >= c.fc.ProofHeight && tipH <= c.exp {
-				c.windowReorgs++
-			}
-		}
-	}
 	return ok
 }
 
